@@ -311,7 +311,14 @@ static void gen_op(char *line, size_t cap) {
       if (o->type == HWLOC_OBJ_MEMCACHE || o->type == HWLOC_OBJ_NUMANODE || (o->type == HWLOC_OBJ_MISC && o->parent && !o->parent->cpuset)
           || (o->type == HWLOC_OBJ_MISC && o->parent && (o->parent->type == HWLOC_OBJ_MEMCACHE || o->parent->type == HWLOC_OBJ_NUMANODE))) { id = r2; break; }
     }
-    snprintf(line, cap, "OP misc %u %s", id, h1);
+    /* I/O parents (bridges, PCI and OS devices) and the Misc objects below them, when the topology has any */
+    if (rng_chance(8)) for (int k = 0; k < 40; k++) {
+      unsigned r2 = rng_below(nobjs); hwloc_obj_t o = objs[r2];
+      if (o->type == HWLOC_OBJ_BRIDGE || o->type == HWLOC_OBJ_PCI_DEVICE || o->type == HWLOC_OBJ_OS_DEVICE
+          || (o->type == HWLOC_OBJ_MISC && o->parent && (o->parent->type == HWLOC_OBJ_PCI_DEVICE || o->parent->type == HWLOC_OBJ_OS_DEVICE || o->parent->type == HWLOC_OBJ_BRIDGE))) { id = r2; break; }
+    }
+    /* NULL name (obj->name stays NULL) and the empty name now and then */
+    snprintf(line, cap, "OP misc %u %s", id, rng_chance(8) ? "-" : rng_chance(4) ? "=" : h1);
   } else if (r < 72) {
     int bynode = rng_chance(25);
     gen_set(a, sizeof a, bynode ? root->complete_nodeset : root->complete_cpuset);
